@@ -267,6 +267,11 @@ func DrawSignCase(t *rapid.T) SignCase {
 	for _, k := range eDep {
 		cands = append(cands, cand{k, eDepReason})
 	}
+	if gen.Int(t, "manyRej", 0, 24) == 0 {
+		// a long run of out-of-range candidates before anything else
+		nIndep = []int{10, 100, 999, 1000, 1001, 2500}[gen.Uniform(t, "manyN", 0, 5)]
+		c.Classes = append(c.Classes, "many-rejected")
+	}
 	for i := 0; i < nIndep; i++ {
 		var cd cand
 		if gen.Bool(t, "zero") {
@@ -290,7 +295,7 @@ func DrawSignCase(t *rapid.T) SignCase {
 	c.Cands = len(cands) + 1
 	c.Stream = append(c.Stream, gen.RandBytes(r, gen.Int(t, "trailing", 0, 40))...)
 	if len(cands) > 0 {
-		c.Classes = append(c.Classes, fmt.Sprintf("rejected:%d", len(cands)))
+		c.Classes = append(c.Classes, fmt.Sprintf("rejected:%d", min(len(cands), 7)))
 	}
 	return c
 }
